@@ -59,7 +59,24 @@ class ScopeModel:
         ss = prog.cls("StackedScopes")
         for m in self.STACK_METHODS:
             self.method_defs[("StackedScopes", m)] = ss.methods[m]
+        # the values mode (closures, both phases) also needs value resolution, module scopes and the scope stack
+        self.value_method_defs: Dict[Tuple[str, str], ast.FunctionDef] = dict(self.method_defs)
+        for m, fn in fs.methods.items():
+            if m != "__init__":
+                self.value_method_defs.setdefault(("FunctionScope", m), fn)
+        for m, fn in sc.methods.items():
+            if m not in ("__init__", "__post_init__"):
+                self.value_method_defs.setdefault(("FunctionScope", m), fn)
+                self.value_method_defs[("ModuleScope", m)] = fn
+        for m, fn in ss.methods.items():
+            if m != "__init__":
+                self.value_method_defs.setdefault(("StackedScopes", m), fn)
+        for m in ("_visit_function_body", "visit_Nonlocal", "visit_Global", "_is_collecting"):
+            if m not in ncv.methods:
+                raise AnchorError(f"NameCheckVisitor.{m} not found")
+            self.value_method_defs[("NameCheckVisitor", m)] = ncv.methods[m]
         self.module_defs = {"uniq_chain": prog.func("stacked_scopes", "uniq_chain")}
+        self.value_module_defs = dict(self.module_defs, _constrain_value=prog.func("stacked_scopes", "_constrain_value"))
         for name in ("LEAVES_SCOPE", "LEAVES_LOOP"):
             v = prog.module_assign("stacked_scopes", name)
             if not (isinstance(v, ast.Constant) and isinstance(v.value, str)):
@@ -216,6 +233,234 @@ class ScopeModel:
         return out
 
 
+    # ------------------------------------------------------------ values mode
+    def revealed(self, fn_node: ast.FunctionDef, module_vars: Sequence[str] = ()) -> Any:
+        """{use node id: set of labels} of the values that the *checking* phase obtains for each
+        variable use, or ("crash", why).  The function is visited the way the checker visits it:
+        NameCheckVisitor._visit_function_body is interpreted (new FunctionScope through
+        StackedScopes.add_scope, collecting pass, checking pass), nested defs recursively, and
+        values are resolved by the real FunctionScope._get_value_from_nodes / _resolve_value /
+        _resolve_origin / Scope.get / resolve_reference.  A value is the set of labels of the
+        assignments it may come from."""
+        uninit = Sym("_UNINITIALIZED")
+        uninit_value = Obj("UninitializedValue", labels=frozenset({UNINIT}))
+        never = Obj("Value", labels=frozenset())
+        collect = Sym("VisitorState.collect_names")
+        check = Sym("VisitorState.check_names")
+
+        def val(*labels: str) -> Obj:
+            return Obj("Value", labels=frozenset(labels))
+
+        def unite(args: List[Any], kwargs: Any = None) -> Any:
+            uniq: List[Any] = []
+            for a in args:
+                if not isinstance(a, Obj) or "labels" not in a._attrs:
+                    raise AnchorError(f"scope model: cannot unite {a!r}")
+                if not any(a is u or (a._kind == u._kind and a._attrs["labels"] == u._attrs["labels"]) for u in uniq):
+                    uniq.append(a)
+            uniq = [u for u in uniq if u._attrs["labels"]] or uniq[:1]
+            if len(uniq) == 1:
+                return uniq[0]
+            return Obj("Value", labels=frozenset().union(*[u._attrs["labels"] for u in uniq]))
+
+        unite.wants_kwargs = True  # type: ignore[attr-defined]
+
+        class Ctx(Obj):
+            def _key(self) -> Any:
+                a = self._attrs
+                fb = a["fallback_value"]
+                return (a["varname"], None if fb is None else id(fb), a["node"] if not isinstance(a["node"], (list, dict)) else id(a["node"]), a["state"])
+
+            def __eq__(self, other: Any) -> bool:
+                return isinstance(other, Ctx) and self._key() == other._key()
+
+            def __hash__(self) -> int:
+                return hash(self._key())
+
+        def lookup_context(args: List[Any]) -> Any:
+            return Ctx("_LookupContext", varname=args[0], fallback_value=args[1], node=args[2], state=args[3])
+
+        def replace(args: List[Any], kwargs: Any = None) -> Any:
+            src = args[0]
+            if not isinstance(src, Ctx):
+                raise AnchorError("scope model: dataclasses.replace on something other than the lookup context")
+            return Ctx("_LookupContext", **{**src._attrs, **(kwargs or {})})
+
+        replace.wants_kwargs = True  # type: ignore[attr-defined]
+
+        def make_fscope(args: List[Any], kwargs: Any = None) -> Obj:
+            parent = args[0]
+            scope_node = args[1] if len(args) > 1 else (kwargs or {}).get("scope_node")
+            limit = args[2] if len(args) > 2 else (kwargs or {}).get("simplification_limit")
+            return Obj(
+                "FunctionScope",
+                scope_type=Sym("ScopeType.function_scope"), variables={}, parent_scope=parent, scope_node=scope_node, scope_object=None, simplification_limit=limit,
+                name_to_current_definition_nodes=collections.defaultdict(list),
+                usage_to_definition_nodes=collections.defaultdict(list),
+                definition_node_to_value={uninit: empty_constrained},
+                name_to_all_definition_nodes=collections.defaultdict(dict),
+                name_to_composites=collections.defaultdict(dict),
+                referencing_value_vars=collections.defaultdict(lambda: uninit_value),
+                accessed_from_special_nodes=set(), current_loop_scopes=[], declared_types={},
+            )
+
+        make_fscope.wants_kwargs = True  # type: ignore[attr-defined]
+        empty_constrained = Obj("_ConstrainedValue", definition_nodes=(), constraints=[], resolution_cache={})
+        builtin_scope = Obj("ModuleScope", scope_type=Sym("ScopeType.builtin_scope"), variables={}, parent_scope=None, scope_node=None, scope_object=None, simplification_limit=None, declared_types={})
+        module_scope = Obj(
+            "ModuleScope", scope_type=Sym("ScopeType.module_scope"), variables={v: val(f"mod:{v}") for v in module_vars}, parent_scope=builtin_scope, scope_node=None, scope_object=None,
+            simplification_limit=None, declared_types={},
+        )
+        scopes = Obj("StackedScopes", scopes=[builtin_scope, module_scope], simplification_limit=None)
+        holder: List[Interp] = []
+        observed: Dict[int, Set[str]] = {}
+        null_constraint = Obj("NullConstraint")
+        null_constraint._attrs["invert"] = lambda: null_constraint
+
+        def override(obj: Obj, attr: str, value: Any) -> Obj:
+            saved: List[Any] = []
+
+            def enter():
+                saved.append(obj.get(attr, fn_node))
+                obj._attrs[attr] = value
+
+            def exit_(exc=None):
+                obj._attrs[attr] = saved.pop()
+
+            return Obj("ContextManager", __enter__=enter, __exit__=exit_)
+
+        nop_cm = lambda *a, **k: Obj("ContextManager", __enter__=lambda: [], __exit__=lambda exc=None: None)  # noqa: E731
+        md = self.value_method_defs
+
+        def sset(name: Any, value: Any, node: Any) -> None:
+            it = holder[0]
+            it.call_def(md[("StackedScopes", "set")], [scopes, name, value, node, visitor.get("state", fn_node)], fn_node)
+
+        def function_info(node: ast.FunctionDef) -> Obj:
+            return Obj("FunctionInfo", node=node, params=[], is_evaluated=False, async_kind=Sym("AsyncFunctionKind.normal"))
+
+        def visit(node: Any) -> Any:
+            it = holder[0]
+            if isinstance(node, (ast.If, ast.While, ast.For, ast.Try, ast.Break, ast.Continue, ast.With, ast.Nonlocal, ast.Global)):
+                d = md[("NameCheckVisitor", "visit_" + type(node).__name__)]
+                return it.call_def(d, [visitor, node], d)
+            if isinstance(node, ast.FunctionDef):
+                d = md[("NameCheckVisitor", "_visit_function_body")]
+                it.call_def(d, [visitor, function_info(node)], d)
+                return None
+            if isinstance(node, ast.Assign):
+                tgt = node.targets[0]
+                sset(tgt.id, val(repr(node.value.value)), tgt)  # type: ignore[attr-defined]
+                return None
+            if isinstance(node, ast.Name) and isinstance(node.ctx, ast.Store):
+                sset(node.id, val(f"for:{node.id}"), node)
+                return None
+            if isinstance(node, ast.Expr) and isinstance(node.value, ast.Name):
+                use = node.value
+                state = visitor.get("state", node)
+                v = it.call_def(md[("StackedScopes", "get")], [scopes, use.id, use, state], node)
+                if state is check:
+                    if not (isinstance(v, Obj) and "labels" in v._attrs):
+                        raise AnchorError(f"scope model: the lookup of {use.id} produced {v!r}")
+                    observed.setdefault(id(use), set()).update(v._attrs["labels"])
+                return None
+            if isinstance(node, ast.Return):
+                sset(self.LEAVES_SCOPE, val("<return>"), node)
+                return None
+            if isinstance(node, ast.ExceptHandler):
+                return generic_visit_list(node.body)
+            if isinstance(node, ast.Pass):
+                return None
+            if isinstance(node, ast.Expr) and isinstance(node.value, ast.Call):
+                return None  # an opaque call (or a call of the nested function): no effect on the scopes
+            if isinstance(node, ast.Call):
+                return val("<cm>")
+            raise AnchorError(f"scope model: statement {type(node).__name__} is outside the generated grammar")
+
+        def generic_visit_list(stmts: Any) -> None:
+            for st in stmts:
+                visit(st)
+
+        def set_name_in_scope(varname: str, node: Any, value: Any = None, **kw: Any) -> Any:
+            sset(varname, value if value is not None else val("<none>"), node)
+            return val("<set>"), frozenset()
+
+        visitor = Obj(
+            "NameCheckVisitor",
+            scopes=scopes, state=check, being_assigned=None,
+            yield_checker=Obj("YieldChecker", set_function_node=nop_cm, reset_yield_checks=lambda: None),
+            options=Obj("Options", get_value_for=lambda opt: False),
+            visit=visit, _generic_visit_list=generic_visit_list, _set_name_in_scope=set_name_in_scope,
+            constraint_from_condition=lambda node, check_boolability=True: (Obj("CondValue", node=node, labels=frozenset({"<cond>"})), null_constraint),
+            add_constraint=lambda node, c: None,
+            catch_errors=nop_cm, _member_value_of_iterator=lambda node, is_async=False: val("<iter>"),
+            visit_withitem=lambda item, is_async=False: isinstance(item.context_expr, ast.Call) and isinstance(item.context_expr.func, ast.Name) and item.context_expr.func.id == "suppress",
+            return_values=[], is_generator=False, async_kind=None, _name_node_to_statement={}, current_class=None, unused_finder=None, annotate=False,
+            _check_method_first_arg=lambda node, function_info=None: None,
+            _check_function_unused_vars=lambda scope, enclosing_statement=None: None,
+            _compute_return_type=lambda *a, **k: Obj("FunctionResult"),
+            _show_error_if_checking=lambda *a, **k: None,
+        )
+
+        def get_boolability(args: List[Any]) -> Any:
+            v = args[0]
+            n = v.get("node", fn_node) if isinstance(v, Obj) and v._kind == "CondValue" else None
+            if isinstance(n, ast.Constant) and n.value is True:
+                return Sym("Boolability.value_always_true")
+            return Sym("Boolability.boolable")
+
+        def isinstance_hook(v: Any, cls: str) -> Optional[bool]:
+            if cls == "Value":
+                return isinstance(v, Obj) and "labels" in v._attrs
+            if cls == "AnyValue":
+                return False
+            if cls in ("ReferencingValue", "CompositeVariable", "AnnotatedValue", "FunctionScope", "_ConstrainedValue"):
+                return isinstance(v, Obj) and v._kind == cls
+            return None
+
+        def function_result(args: List[Any], kwargs: Any = None) -> Any:
+            return Obj("FunctionResult")
+
+        function_result.wants_kwargs = True  # type: ignore[attr-defined]
+        funcs = {
+            "get_boolability": get_boolability,
+            "_extract_definite_value": lambda args: None,
+            "unannotate_value": lambda args: (args[0], []),
+            "AnyValue": lambda args: val("<any>"),
+            "KnownValue": lambda args: val(f"<known:{args[0]!r}>"),
+            "_LookupContext": lookup_context,
+            "replace": replace,
+            "flatten_values": lambda args: [args[0]],
+            "unite_values": unite,
+            "unite_and_simplify": unite,
+            "safe_equals": lambda args: args[0] is args[1] or (isinstance(args[0], Obj) and isinstance(args[1], Obj) and args[0]._attrs.get("labels") == args[1]._attrs.get("labels")),
+            "ReferencingValue": lambda args: Obj("ReferencingValue", scope=args[0], name=args[1], labels=frozenset({"<reference>"})),
+            "FunctionScope": make_fscope,
+            "FunctionResult": function_result,
+        }
+        globals_ = {
+            "ast": ast,
+            "qcore": Obj("qcore", override=override, empty_context=nop_cm()),
+            "chain": Obj("chain", from_iterable=lambda x: [z for y in x for z in y]),
+            "OrderedDict": collections.OrderedDict,
+            "LEAVES_SCOPE": self.LEAVES_SCOPE, "LEAVES_LOOP": self.LEAVES_LOOP,
+            "_UNINITIALIZED": uninit, "UNINITIALIZED_VALUE": uninit_value, "EMPTY_ORIGIN": frozenset(), "NO_RETURN_VALUE": never,
+            "_empty_constrained": empty_constrained,
+            "ForLoopAlwaysEntered": Sym("ForLoopAlwaysEntered"), "UnionSimplificationLimit": Sym("UnionSimplificationLimit"), "AlwaysPresentExtension": Sym("AlwaysPresentExtension"),
+        }
+        it = Interp({}, {}, (), funcs, isinstance_hook, md, self.value_module_defs, globals_)
+        holder.append(it)
+        try:
+            visit(fn_node)
+        except Unsupported as u:
+            raise AnchorError(f"the scope machinery cannot be modelled (values): {u}")
+        except AssertionFailed as af:
+            return ("crash", f"assertion {af}")
+        except (PyRaise, ModelError) as e:
+            return ("crash", str(e))
+        return observed
+
+
 # ------------------------------------------------------------------ reference
 State = Dict[str, FrozenSet[str]]
 
@@ -228,6 +473,25 @@ def _join(states: Sequence[Optional[State]]) -> Optional[State]:
     return {k: frozenset().union(*[s.get(k, frozenset({UNINIT})) for s in live]) for k in keys}
 
 
+def function_names(fn: ast.FunctionDef) -> Tuple[Set[str], Set[str]]:
+    """(names declared nonlocal / global, names assigned) directly in fn, nested functions excluded."""
+    declared: Set[str] = set()
+    assigned: Set[str] = set()
+    todo: List[ast.AST] = list(fn.body)
+    while todo:
+        n = todo.pop()
+        if isinstance(n, (ast.FunctionDef, ast.Lambda)):
+            continue
+        if isinstance(n, (ast.Nonlocal, ast.Global)):
+            declared.update(n.names)
+        elif isinstance(n, ast.Assign):
+            assigned.update(t.id for t in n.targets if isinstance(t, ast.Name))
+        elif isinstance(n, ast.For) and isinstance(n.target, ast.Name):
+            assigned.add(n.target.id)
+        todo.extend(ast.iter_child_nodes(n))
+    return declared, assigned
+
+
 class Reaching:
     """Structural reaching-definitions analysis of the generated grammar.  liberal=True:
     exception edges at every statement of a try body, every loop may exit after any iteration
@@ -238,10 +502,47 @@ class Reaching:
         self.liberal = liberal
         self.uses: Dict[int, Set[str]] = {}
         self.executed: Set[str] = set()  # labels of the assignments some path executes
+        self.defs: Dict[str, ast.FunctionDef] = {}  # nested functions defined so far
+        self.rename: List[Tuple[Dict[str, str], Set[str]]] = []  # per function being executed: its own names, its global declarations
+        self.returns: List[List[State]] = []  # states at the return statements of the nested function being executed
 
-    def run(self, fn_node: ast.FunctionDef) -> Dict[int, Set[str]]:
-        self.block(fn_node.body, {}, [])
+    def run(self, fn_node: ast.FunctionDef, initial: Optional[State] = None) -> Dict[int, Set[str]]:
+        declared, assigned = function_names(fn_node)
+        self.rename.append(({n: f"{fn_node.name}.{n}" for n in assigned - declared}, self.global_names(fn_node)))
+        self.block(fn_node.body, dict(initial or {}), [])
         return self.uses
+
+    @staticmethod
+    def global_names(fn: ast.FunctionDef) -> Set[str]:
+        return {n for x in ast.walk(fn) if isinstance(x, ast.Global) for n in x.names if not any(x in ast.walk(f) for f in ast.walk(fn) if isinstance(f, ast.FunctionDef) and f is not fn)}
+
+    def key(self, name: str) -> str:
+        """The variable a name denotes here: the innermost enclosing function that owns it, else the module's."""
+        for own, global_decl in reversed(self.rename):
+            if name in global_decl:
+                return name
+            if name in own:
+                return own[name]
+        return name
+
+    def call_nested(self, fn: ast.FunctionDef, st: State, exc: List[List[State]]) -> Optional[State]:
+        """A call of a nested function at a known point: its body runs on the caller's state;
+        names it declares nonlocal / global or only reads are the caller's, the others are its own."""
+        declared, assigned = function_names(fn)
+        own = {n: f"{fn.name}.{n}" for n in assigned - declared}
+        entry = {k: v for k, v in st.items() if k not in own.values()}
+        self.rename.append((own, self.global_names(fn)))
+        self.returns.append([])
+        try:
+            out, _, _ = self.block(fn.body, entry, exc)
+            rets = self.returns[-1]
+        finally:
+            self.rename.pop()
+            self.returns.pop()
+        res = _join([out] + rets)
+        if res is None:
+            return None
+        return {k: v for k, v in res.items() if k not in own.values()}
 
     def block(self, stmts: Sequence[ast.stmt], st: Optional[State], exc: List[List[State]]) -> Tuple[Optional[State], List[State], List[State]]:
         """-> (state after normal completion or None, states at break, states at continue)"""
@@ -265,17 +566,25 @@ class Reaching:
         if isinstance(s, ast.Assign):
             t = s.targets[0]
             self.executed.add(repr(s.value.value))  # type: ignore[attr-defined]
-            return {**st, t.id: frozenset({repr(s.value.value)})}, [], []  # type: ignore[attr-defined]
+            return {**st, self.key(t.id): frozenset({repr(s.value.value)})}, [], []  # type: ignore[attr-defined]
         if isinstance(s, ast.Expr) and isinstance(s.value, ast.Name):
-            self.uses.setdefault(id(s.value), set()).update(st.get(s.value.id, frozenset({UNINIT})))
+            self.uses.setdefault(id(s.value), set()).update(st.get(self.key(s.value.id), frozenset({UNINIT})))
             return st, [], []
-        if isinstance(s, ast.Pass):
+        if isinstance(s, (ast.Pass, ast.Nonlocal, ast.Global)):
+            return st, [], []
+        if isinstance(s, ast.FunctionDef):
+            self.defs[s.name] = s
             return st, [], []
         if isinstance(s, ast.Expr) and isinstance(s.value, ast.Call):
             for e in exc:  # strict and liberal: a call may raise
                 e.append(dict(st))
+            callee = s.value.func.id if isinstance(s.value.func, ast.Name) else None
+            if callee in self.defs:
+                return self.call_nested(self.defs[callee], st, exc), [], []
             return st, [], []
         if isinstance(s, ast.Return):
+            if self.returns:
+                self.returns[-1].append(dict(st))
             return None, [], []
         if isinstance(s, ast.Break):
             return None, [dict(st)], []
@@ -292,7 +601,7 @@ class Reaching:
             for _ in range(6):  # fixpoint over a finite lattice of small height
                 entry = dict(head) if head is not None else None
                 if entry is not None and isinstance(s, ast.For):
-                    entry[s.target.id] = frozenset({f"for:{s.target.id}"})  # type: ignore[attr-defined]
+                    entry[self.key(s.target.id)] = frozenset({f"for:{s.target.id}"})  # type: ignore[attr-defined]
                 out, b, c = self.block(s.body, entry, exc)
                 breaks = b
                 new_head = _join([st, out] + c)
@@ -367,14 +676,14 @@ def _blocks(depth: int, budget: int, counter: List[int], in_loop: bool) -> Itera
     for s in simple:
         yield [s]
     if depth > 0:
-        inner = [["x = {n}"], ["x"], ["x = {n}", "break"] if in_loop else ["x = {n}", "return"], ["pass"]]
+        inner = [["x = {n}"], ["x"], ["x = {n}", "break"] if in_loop else ["x = {n}", "return"], ["pass"]] + ([["x = {n}", "continue"]] if in_loop else [])
         loop_inner = [["x = {n}"], ["x", "x = {n}"], ["x = {n}", "break"], ["x = {n}", "continue"], ["if c:", "    break", "x = {n}"], ["if c:", "    x = {n}", "    continue", "y = {n}"]]
         for a in inner:
             for b in inner[:3] + [[]]:
                 yield ["if c:"] + ["    " + l for l in a] + (["else:"] + ["    " + l for l in b] if b else [])
         for head in ("while c:", "while True:", "for i in it:"):
             for a in loop_inner:
-                for e in ([], ["x = {n}"], ["y"]):
+                for e in ([], ["x = {n}"], ["y"], ["x"]):
                     if head == "while True:" and e:
                         continue
                     yield [head] + ["    " + l for l in a] + (["else:"] + ["    " + l for l in e] if e else [])
@@ -434,6 +743,13 @@ def programs(step: int = 3) -> Iterator[str]:
                     yield render(pre + [loop, "    " + head, "        x = {n}", "        g()", "        " + leave, "    x = {n}", "x"])
         for pre in ([], ["y = {n}"]):
             yield render(pre + ["if c:", "    y = {n}", "    while True:", "        " + head, "            x = {n}", "            break", "else:", "    x = {n}", "x", "y"])
+    # what a continue carries reaches the else block (the loop test fails afterwards); what a break carries does not
+    for loop in ("while c:", "for i in it:"):
+        for leave in ("continue", "break"):
+            for pre in ([], ["x = {n}"]):
+                yield render(pre + [loop, "    if c:", "        x = {n}", "        " + leave, "    x = {n}", "else:", "    x", "x"])
+                yield render(pre + [loop, "    if c:", "        if c:", "            x = {n}", "            " + leave, "        x = {n}", "    else:", "        x = {n}", "else:", "    x", "x"])
+                yield render(pre + [loop, "    try:", "        g()", "        x = {n}", "        " + leave, "    except E:", "        x = {n}", "else:", "    x", "x"])
     # statements after a jump in the same block are dead: they must not hide what the jump carries out
     for loop in ("while c:", "while True:", "for i in it:"):
         for leave in ("break", "continue"):
@@ -444,3 +760,92 @@ def programs(step: int = 3) -> Iterator[str]:
     for c in constructs[::step]:
         yield render(["try:"] + ["    " + l for l in c] + ["    y = {n}", "except E:", "    x", "finally:", "    y"] + ["x", "y"])
         yield render(["if c:"] + ["    " + l for l in c] + ["else:", "    x = {n}"] + ["x", "y"])
+
+
+def closure_programs() -> Iterator[Tuple[str, Tuple[str, ...]]]:
+    """(source, module variables): a function with a nested function that reads or assigns a name of
+    the enclosing function (nonlocal, or a plain closure read), or a module variable (global), with
+    a call of the nested function at a known point; CPython's own compiler filters the combinations
+    that are syntax errors (nonlocal without a binding)."""
+
+    def render(lines: List[str]) -> str:
+        out = []
+        n = 0
+        for l in lines:
+            while "{n}" in l:
+                n += 1
+                l = l.replace("{n}", str(n), 1)
+            out.append("    " + l)
+        return "def f():\n" + "\n".join(out) + "\n"
+
+    def ind(lines: List[str]) -> List[str]:
+        return ["    " + l for l in lines]
+
+    bodies = [
+        ["x"], ["x = {n}", "x"], ["if c:", "    x = {n}", "x"], ["for i in it:", "    x = {n}", "x"],
+        ["while c:", "    x = {n}", "    break", "x"], ["try:", "    g()", "    x = {n}", "except E:", "    pass", "x"],
+        ["if c:", "    x = {n}", "else:", "    x = {n}", "x"], ["if c:", "    return", "x = {n}", "x"], ["x", "x = {n}"],
+        ["if c:", "    x = {n}", "    return", "x"],
+    ]
+    for pre in ([], ["x = {n}"], ["if c:", "    x = {n}"]):
+        for decl in (["nonlocal x"], []):
+            for body in bodies:
+                for mid in ([], ["x = {n}"]):
+                    for call in (["inner()"], ["inner()", "inner()"], []):
+                        for post in (["x"], ["x = {n}", "x"]):
+                            src = render(pre + ["def inner():"] + ind(decl + body) + mid + call + post)
+                            try:
+                                compile(src, "<closure>", "exec")
+                            except SyntaxError:
+                                continue
+                            yield src, ()
+    for body in bodies:
+        gbody = [l.replace("x", "g") if l.strip() in ("x", "x = {n}") else l for l in body]
+        gbody = [l.replace("gxcept", "except") for l in gbody]
+        for decl in (["global g"], []):
+            yield render(decl + gbody), ("g",)
+            yield render(["def inner():"] + ind(decl + gbody) + ["inner()", "g"]), ("g",)
+            yield render(["g = {n}", "def inner():"] + ind(decl + gbody) + ["inner()", "g"]), ("g",)
+
+
+def classify_uses(fn: ast.FunctionDef) -> Tuple[Dict[int, Tuple[str, str]], Dict[str, Set[str]], Set[str]]:
+    """-> ({id(use): (kind, variable)}, {variable: labels of all its assignments}, variables a nested
+    function assigns through nonlocal).  kind: own | nonlocal | global | free (a closure read of an
+    enclosing function's variable) | module (a read of a module variable without a declaration)."""
+    kinds: Dict[int, Tuple[str, str]] = {}
+    labels: Dict[str, Set[str]] = {}
+    written_by_nested: Set[str] = set()
+
+    def walk(f: ast.FunctionDef, chain: List[Tuple[ast.FunctionDef, Set[str], Set[str]]]) -> None:
+        declared, assigned = function_names(f)
+        globals_ = Reaching.global_names(f)
+        chain = chain + [(f, declared, assigned)]
+
+        def resolve(n: str) -> Tuple[str, str]:
+            if n in globals_:
+                return "global", n
+            if n in assigned and n not in declared:
+                return "own", f"{f.name}.{n}"
+            for g, gdecl, gassigned in reversed(chain[:-1]):
+                if n in gassigned and n not in gdecl:
+                    return ("nonlocal" if n in declared else "free"), f"{g.name}.{n}"
+            return "module", n
+
+        todo: List[ast.AST] = list(f.body)
+        while todo:
+            x = todo.pop()
+            if isinstance(x, ast.FunctionDef):
+                walk(x, chain)
+                continue
+            if isinstance(x, ast.Name) and isinstance(x.ctx, ast.Load):
+                kinds[id(x)] = resolve(x.id)
+            elif isinstance(x, ast.Assign) and isinstance(x.targets[0], ast.Name):
+                kind, var = resolve(x.targets[0].id)
+                labels.setdefault(var, set()).add(repr(x.value.value))  # type: ignore[attr-defined]
+                if kind == "nonlocal":
+                    written_by_nested.add(var)
+            todo.extend(c for c in ast.iter_child_nodes(x) if not (isinstance(x, ast.Assign) and c in x.targets))
+        return None
+
+    walk(fn, [])
+    return kinds, labels, written_by_nested
